@@ -39,6 +39,8 @@ type c10Entry struct {
 	Path string `json:"p"` // relative, slash separated
 	Dir  bool   `json:"d"`
 	Size int    `json:"s"`
+	Info bool   `json:"i,omitempty"` // a stored information fork (with a comment) next to the file
+	Rsrc bool   `json:"r,omitempty"` // a stored resource fork next to the file
 }
 
 type c10Case struct {
@@ -105,6 +107,12 @@ func c10Populate(root string, tree []c10Entry) {
 		} else {
 			_ = os.MkdirAll(filepath.Dir(p), 0755)
 			_ = os.WriteFile(p, c10Data(e.Path, e.Size), 0644)
+			if e.Info {
+				_ = os.WriteFile(filepath.Join(filepath.Dir(p), ".info_"+filepath.Base(p)), ref.NewInfoFork(filepath.Base(p), "TEXT", "ttxt", "a comment").Encode(), 0644)
+			}
+			if e.Rsrc {
+				_ = os.WriteFile(filepath.Join(filepath.Dir(p), ".rsrc_"+filepath.Base(p)), c08Rsrc(), 0644)
+			}
 		}
 	}
 }
@@ -314,6 +322,29 @@ func c10CheckDownload(c c10Case, items []c10Got, announced int, fail func(string
 		clause := "send"
 		if act != 0 {
 			clause = "resume"
+		}
+		if e.Info || e.Rsrc {
+			// files with stored forks: header, the data from the offset, then nothing / an empty resource fork
+			// header (no stored resource fork) or the resource fork header and bytes
+			tail := p.Rest
+			if len(tail) < len(want) || !bytes.Equal(tail[:len(want)], want) {
+				fail("download/file-bytes-wrong-on-"+clause, fmt.Sprintf("%s (stored forks info=%v rsrc=%v, size %d, from offset %d): %d bytes follow the header, they do not start with data[%d:]", path, e.Info, e.Rsrc, e.Size, off, len(tail), off))
+				continue
+			}
+			tail = tail[len(want):]
+			okTail := len(tail) == 0 && !e.Rsrc
+			if len(tail) >= 16 && string(tail[:4]) == "MACR" {
+				n := int(binary.BigEndian.Uint32(tail[12:16]))
+				if e.Rsrc {
+					okTail = n == len(c08Rsrc()) && bytes.Equal(tail[16:], c08Rsrc())
+				} else {
+					okTail = n == 0 && len(tail) == 16
+				}
+			}
+			if !okTail && !(e.Rsrc && act != 0) { // what follows the data of a resumed item that has a resource fork is not specified here
+				fail("download/bytes-after-the-data-fork", fmt.Sprintf("%s (stored forks info=%v rsrc=%v): %d bytes after the data: %x", path, e.Info, e.Rsrc, len(tail), tail[:min(len(tail), 24)]))
+			}
+			continue
 		}
 		if g.Prefix != p.HeaderLen+len(want) {
 			fail("download/size-prefix-wrong-on-"+clause, fmt.Sprintf("%s (size %d, action %s from offset %d): prefix %d, header %d + remaining data %d = %d", path, e.Size, clause, off, g.Prefix, p.HeaderLen, len(want), p.HeaderLen+len(want)))
@@ -600,6 +631,19 @@ func c10Cases(thorough bool) []c10Case {
 			cs = append(cs, c10Case{Mode: "upload", Tree: t, Target: target})
 		}
 		cs = append(cs, c10Case{Mode: "roundtrip", Tree: t})
+	}
+	// files with stored information / resource forks inside the folder
+	for _, t := range [][]c10Entry{
+		{{Path: "a", Size: 5, Info: true}, {Path: "b c", Size: 5}},
+		{{Path: "a", Size: 5, Info: true, Rsrc: true}, {Path: "b c", Size: 1}},
+		{{Path: "a", Size: 1, Rsrc: true}, {Path: "b c", Size: 1}},
+		{{Path: "a", Size: 5}, {Path: "sub", Dir: true}, {Path: "sub/x", Size: 1, Info: true}},
+	} {
+		for a0 := 0; a0 < 5; a0++ {
+			for a1 := 0; a1 < 5; a1++ {
+				cs = append(cs, c10Case{Mode: "download", Tree: t, Actions: []int{a0, a1}})
+			}
+		}
 	}
 	// cut enumeration on two representative trees
 	for _, t := range [][]c10Entry{
